@@ -3,7 +3,8 @@
 # Confirms an agent-made change in a scratch worktree of /repo HEAD: demo passes pristine, fails with the patch,
 # the repository's own test suite still passes with the patch. Stores everything under /verif/seeded/<dest-name>/.
 SRCDIR=$1; NAME=$2; ID=$3
-WT=/tmp/wt/confirm.$NAME.$$
+WT=/tmp/wt/$ID   # the path the agent's build.sh defaults to
+if [ -e $WT ]; then echo "$WT exists (agent still running?)"; exit 2; fi
 DEST=/verif/seeded/$NAME
 mkdir -p $DEST
 git -C /repo worktree add --detach $WT HEAD >/dev/null 2>&1 || { echo "worktree failed"; exit 2; }
@@ -11,8 +12,10 @@ trap 'git -C /repo worktree remove --force $WT >/dev/null 2>&1; rm -rf $WT' EXIT
 LOG=$DEST/confirm.log; : > $LOG
 cp $SRCDIR/patch.diff $DEST/; cp $SRCDIR/demo.* $SRCDIR/build.sh $DEST/ 2>/dev/null
 run_demo() { # $1 = tag
-  ( cd $DEST && SRC=$WT OUT=$WT/demo_$1 sh ./build.sh $WT/demo_$1 ) >>$LOG 2>&1 || { echo "demo build failed ($1)" >>$LOG; return 99; }
-  ( cd $WT && timeout 180 $WT/demo_$1 ) >>$LOG 2>&1; return $?
+  rm -f $DEST/demo
+  ( cd $DEST && sh ./build.sh ) >>$LOG 2>&1 || { echo "demo build failed ($1)" >>$LOG; return 99; }
+  [ -x $DEST/demo ] || { echo "no demo binary produced ($1)" >>$LOG; return 98; }
+  ( cd $DEST && timeout 300 ./demo ) >>$LOG 2>&1; rc=$?; rm -f $DEST/demo; return $rc
 }
 echo "== pristine demo" >>$LOG; run_demo pristine; RC0=$?
 ( cd $WT && git apply $DEST/patch.diff ) >>$LOG 2>&1 || { echo "PATCH DOES NOT APPLY" | tee -a $LOG; exit 3; }
